@@ -371,3 +371,209 @@ def check_prim(rep: Rep, pre: str, comp: Competition) -> None:
         if e not in mp and e not in mq:
             rep.ev(pre + "PRIM-mark-stray", e, False,
                    "status store that is not the both-endpoints rule (wrong node, wrong guard or wrong value)")
+
+
+# ---------------------------------------------------------------------------
+# f_min clustering over a max-heap (KNN-supervised / unsupervised)
+# ---------------------------------------------------------------------------
+
+
+def strip_override(v: Term) -> Tuple[Term, List[Term]]:
+    """v = sel(c1, -FLOAT_MAX, sel(c2, -FLOAT_MAX, base)) -> (base, [c1, c2]) (either arm order)."""
+    worst = (("neg", K("FLOAT_MAX")), ("bin", "*", ("const", -1), K("FLOAT_MAX")))
+    conds = []
+    while v[0] == "sel":
+        c, a, b = v[1], v[2], v[3]
+        if a in worst:
+            conds.append(c)
+            v = b
+        elif b in worst:
+            conds.append(mk_not(c))
+            v = a
+        else:
+            break
+    return v, conds
+
+
+def check_fmin_clustering(rep: Rep, pre: str, comp: Competition, label_field: str,
+                          force_required: bool = False) -> dict:
+    """label_field: 'predicted_label' (KNN-supervised) or 'cluster_label' (unsupervised)."""
+    w = comp.walker
+    fn = comp.fn
+    p = comp.p
+    info = {"override_conditions": []}
+    rep.fn(pre + "CLU-policy", fn, f"Heap policy of the clustering loop = {comp.policy!r}",
+           comp.policy == "max", "f_min optimum paths need a max-priority queue", line=comp.loop.line)
+    if comp.graph is None:
+        rep.fn(pre + "CLU-graph", fn, "heap sized from the graph", False, "heap capacity is not a node count")
+        return info
+    g = comp.graph
+    before = [e for e in w.events if e.seq < comp.loop.first_seq]
+    inserts = [e for e in before if e.kind == "call" and e.name == "insert" and e.target == ("attr", comp.heap, "insert")]
+    kinds = Kinds(w)
+    ok_ins = len(inserts) == 1 and inserts[0].args and kinds.kind(inserts[0].args[0]) == ("NodeIdx", g) \
+        and inserts[0].args[0][0] == "iter"
+    rep.fn(pre + "CLU-seed-all", fn, "every node is queued before the competition", bool(ok_ins),
+           f"found {len(inserts)} insert site(s); one unconditional insert per node expected", line=comp.loop.line)
+    if ok_ins:
+        ins = inserts[0]
+        i = ins.args[0]
+        seed_loop = ins.loops[-1] if ins.loops else None
+        uncond = all(gd in comp.loop.guards for gd in ins.guards)
+        rep.ev(pre + "CLU-seed-uncond", ins, uncond, "the seeding insert must not be conditional")
+        same = [e for e in before if e.kind == "store" and e.loops == ins.loops and e.guards == ins.guards]
+        c0 = [e for e in same if e.target == comp.hcost(i) and e.value == comp.field(i, "cost") and not e.aug]
+        rep.ev(pre + "CLU-seed-cost", ins, len(c0) == 1, "a node enters with H.cost = its initial cost (density - 1)")
+        pn = [e for e in same if e.target == comp.field(i, "pred") and e.value == K("NIL")]
+        rep.ev(pre + "CLU-seed-pred", ins, len(pn) == 1, "every node starts without predecessor")
+        rt = [e for e in same if e.target == comp.field(i, "root") and e.value == i]
+        rep.ev(pre + "CLU-seed-root", ins, len(rt) == 1, "every node starts as its own root")
+    # root discovery at removal
+    base_guards = comp.loop.guards + ((comp.loop.cond, True),)
+    g_root = ("cmp", "==", *sorted([K("NIL"), comp.field(p, "pred")], key=repr))
+    root_guards = base_guards + ((g_root, True),)
+    lifts = [e for e in comp.events if e.kind == "store" and e.target == comp.hcost(p)]
+    lift_ok = [e for e in lifts if e.guards == root_guards and e.value == comp.field(p, "density") and not e.aug
+               and e in comp.top]
+    rep.fn(pre + "CLU-root-lift", fn, "a node removed without predecessor is lifted to its density",
+           len(lift_ok) == 1 and len(lifts) == 1,
+           f"{len(lifts)} store(s) to H.cost[p], {len(lift_ok)} of the form 'if pred(p) == NIL: H.cost[p] = density(p)'",
+           line=comp.loop.line)
+    cost_st = [e for e in comp.events if e.kind == "store" and e.target[0] == "attr" and e.target[2] == "cost"
+               and node_of(e.target[1])]
+    cost_ok = [e for e in cost_st if e.target == comp.field(p, "cost") and e.value == comp.hcost(p)
+               and e.guards == base_guards and e in comp.top and not e.aug]
+    rep.fn(pre + "CLU-cost", fn, "recorded cost: nodes[p].cost = H.cost[p] at removal",
+           len(cost_ok) == 1 and len(cost_st) == 1,
+           f"{len(cost_st)} store(s) to a node cost in the loop, {len(cost_ok)} of the required form",
+           line=comp.loop.line)
+    if lift_ok and cost_ok:
+        rep.ev(pre + "CLU-lift-before-cost", cost_ok[0], lift_ok[0].seq < cost_ok[0].seq,
+               "the root lift must precede the cost record, otherwise a root keeps density - 1")
+    # root label / cluster id
+    if label_field == "predicted_label":
+        own = [e for e in comp.events if e.kind == "store" and e.target == comp.field(p, "predicted_label")
+               and e.guards == root_guards]
+        ok = len(own) == 1 and own[0].value == comp.field(p, "label")
+        rep.fn(pre + "CLU-root-label", fn, "a root takes its own true label", ok,
+               "expected 'if pred(p) == NIL: predicted_label(p) = label(p)'", line=comp.loop.line)
+    else:
+        own = [e for e in comp.events if e.kind == "store" and e.target == comp.field(p, "cluster_label")
+               and e.guards == root_guards]
+        ok = False
+        detail = "expected 'if pred(p) == NIL: cluster_label(p) = counter; counter += 1'"
+        if len(own) == 1 and own[0].value[0] == "phi" and own[0].value[1] == comp.loop.lid:
+            cname = own[0].value[2]
+            init, end = comp.loop.carried.get(cname, (None, None))
+            incs = [e for e in comp.events if e.kind == "bind" and e.name == cname]
+            inc_ok = (len(incs) == 1 and incs[0].guards == root_guards and incs[0].aug == "+"
+                      and incs[0].target == ("const", 1) and incs[0].seq > own[0].seq)
+            ok = init == ("const", 0) and inc_ok
+            if init != ("const", 0):
+                detail = f"cluster counter starts at {show(init) if init else '?'}, identifiers must be 0..n-1"
+            elif not inc_ok:
+                detail = "the counter must be incremented by 1 exactly once per root, after the identifier is assigned"
+            after = [e for e in w.events if e.seq > comp.loop.last_seq and e.kind == "store"
+                     and e.target == ("attr", g, "n_clusters")]
+            okn = len(after) >= 1 and after[0].value == ("phi", comp.loop.lid, cname) and after[0].guards == comp.loop.guards
+            rep.fn(pre + "CLU-count", fn, "n_clusters = number of roots discovered", okn,
+                   "n_clusters must be the root counter after the loop", line=comp.loop.line)
+        rep.fn(pre + "CLU-root-id", fn, "a root takes the next cluster identifier", ok, detail, line=comp.loop.line)
+    # relaxation
+    rep.fn(pre + "CLU-update-sites", fn, "exactly one relaxation site (H.update) in the loop",
+           len(comp.updates) == 1, f"found {len(comp.updates)}", line=comp.loop.line)
+    for u in comp.updates:
+        q = u.q
+        dom = neighbour_domain(comp, u)
+        okd = False
+        if dom[0] == "adjacency":
+            okd = dom[1] == comp.node(p)
+        elif dom[0] == "adjprefix":
+            bound = dom[2]
+            okd = dom[1] == comp.node(p) and contains(bound, comp.field(p, "n_plateaus")) \
+                and bound[0] == "bin" and bound[1] == "+"
+        rep.ev(pre + "CLU-domain", u.event, okd,
+               f"neighbours must be the adjacency of the removed node (whole list or its first n_plateaus + k "
+               f"entries); found {dom[0]}",
+               construct=f"for q in {show(u.neighbour_loop.domain) if u.neighbour_loop else '?'}")
+        kq = kinds.kind(q)
+        rep.ev(pre + "CLU-q-kind", u.event, kq == ("NodeIdx", g), f"q has kind {kq}",
+               construct=f"q = {show(q)[:90]}")
+        base, conds = strip_override(u.value)
+        info["override_conditions"] = conds
+        hp = comp.hcost(p)
+        other = split_candidate(base, hp, "min")
+        okv = other == comp.field(q, "density")
+        rep.ev(pre + "CLU-extension", u.event, okv,
+               "" if okv else f"candidate cost must be min(H.cost[p], density(q)); found '{show(base)[:160]}'")
+        acc = acceptance(comp, u)
+        if acc is None:
+            rep.ev(pre + "CLU-accept", u.event, False, "H.update(q, v) is not dominated by a test of v against H.cost[q]")
+            continue
+        t, rel, pos = acc
+        ok = rel == "h<v"
+        rep.guard(pre + "CLU-accept", w, t, u.event, ok,
+                  "" if ok else ("acceptance must be strictly 'v > H.cost[q]' on a max-heap "
+                                 f"(found relation {rel}): a conquered node must end strictly above density - 1"))
+        names = []
+        for gp, (gd, pol) in enumerate(u.inner_guards):
+            if gp == pos:
+                continue
+            nm = classify_guard(comp, u, gd, pol, None)
+            names.append(nm)
+            okg = nm in ("not-removed", "p!=q")
+            rep.guard(pre + "CLU-guard", w, gd, u.event, okg,
+                      "" if okg else f"relaxation restricted by a test outside the accepted family: '{show(gd if pol else mk_not(gd))[:140]}'")
+        rep.ev(pre + "CLU-colour", u.event, "not-removed" in names,
+               "relaxation must skip removed (BLACK) nodes: the root lift raises a key after removal, so a removed "
+               "neighbour could be re-pointed", construct="colour guard of " + u.event.text())
+        branch = stores_in_branch(comp, u)
+        want = {
+            "pred": p,
+            "root": comp.field(p, "root"),
+            label_field: comp.field(p, label_field),
+        }
+        good = []
+        for f, val in want.items():
+            hit = [e for e in branch if e.target == comp.field(q, f) and e.value == val and not e.aug]
+            good += hit
+            rep.ev(pre + "CLU-" + f, u.event, len(hit) == 1,
+                   f"accepted branch must copy {f} from the conqueror p to q",
+                   construct=f"accepted branch of {u.event.text()} [{f}]")
+        for e in comp.events:
+            if e.kind != "store" or e.target[0] != "attr" or not node_of(e.target[1]):
+                continue
+            if e in good or e in cost_ok or e in own:
+                continue
+            if e.target[2] in ("pred", "root", "cost", label_field, "density"):
+                rep.ev(pre + "CLU-stray", e, False,
+                       f"store to nodes[..].{e.target[2]} that is not part of the schema")
+    return info
+
+
+def check_propagate_labels(rep: Rep, w: Walker) -> None:
+    """propagate_labels gives every node the true label of its root."""
+    g = ("attr", ("self",), "subgraph")
+    stores = [e for e in w.events if e.kind == "store" and e.target[0] == "attr" and e.target[2] == "predicted_label"]
+    rep.fn("PROP-sites", w.entry, "propagate_labels assigns predicted_label", len(stores) >= 1, "no assignment found")
+    kinds = Kinds(w)
+    for e in stores:
+        n = node_of(e.target[1])
+        ok = False
+        detail = "predicted_label(i) must be label(root(i))"
+        if n and e.value[0] == "attr" and e.value[2] == "label":
+            src = node_of(e.value[1])
+            i = n[1]
+            if src and src[0] == n[0]:
+                r = src[1]
+                rooti = ("attr", ("idx", ("attr", n[0], "nodes"), i), "root")
+                if r == rooti or (r[0] == "old" and r[1] == rooti):
+                    ok = True
+                elif r == i:
+                    eq = ("cmp", "==", *sorted([i, rooti], key=repr))
+                    ok = any(gd == eq and pol for gd, pol in e.guards)
+                    detail = "label(i) is used without the guard root(i) == i"
+            full = kinds.kind(i) == ("NodeIdx", n[0]) and i[0] == "iter"
+            if not full:
+                ok, detail = False, "the loop does not visit every node"
+        rep.ev("PROP-root-label", e, ok, detail)
